@@ -256,7 +256,27 @@ theorem novalidate_agrees (cfg : Cfg) (s s' : State) (rec : Nat) (r : Record)
     (h : applyRecord cfg true s rec r = .ok s') : applyRecord cfg false s rec r = .ok s' :=
   applyRecord_novalidate cfg s s' rec r h
 
+/-- **shrink_invariant**: the memory-saving partial decode (`unmarshalAclDataKeepIdentity`: inside
+every read key change, standalone or nested in an AccountRemove, only the observer's own
+`AclEncryptedReadKey` is kept) does not change what a non-validating list does with the record —
+neither the verdict nor the state. (The byte-level fast path of keepidentity.go is trusted to equal
+`fullDecodeFilter`; the repo fuzzes that.) -/
+theorem shrink_invariant (cfg : Cfg) (s : State) (rec me : Nat) (r : Record) :
+    applyRecord cfg false s rec (shrinkRecord me r) = applyRecord cfg false s rec r :=
+  applyRecord_shrink cfg s rec me r
+
+/-- what consensus accepted (full decode, full validation) yields, on a client that decodes
+partially and does not validate, the same state -/
+theorem client_view_agrees (cfg : Cfg) (s s' : State) (rec me : Nat) (r : Record)
+    (h : applyRecord cfg true s rec r = .ok s') :
+    applyRecord cfg false s rec (shrinkRecord me r) = .ok s' := by
+  rw [shrink_invariant]; exact novalidate_agrees cfg s s' rec r h
+
 /-! ## non-vacuity -/
+
+example : shrinkRecord 3 ⟨0, 0, [.rkc ⟨true, true, true, [0, 3, 4], [1]⟩, .add [(5, 3)]]⟩
+    = ⟨0, 0, [.rkc ⟨true, true, true, [3], [1]⟩, .add [(5, 3)]]⟩ := by decide
+
 
 example : (addRaw ⟨false, true, true, true, true⟩ lcFixed ⟨false, 7⟩ true (rootList 0 none)
     ⟨1, 1, some 0, some 7, ⟨0, 0, [.add [(1, 3)], .inv 1 4 0 true]⟩⟩).2 = none := by decide
